@@ -30,7 +30,77 @@ def state(ctx, size, kind, name='c'):
     return c
 
 
+def build_assembly(cfg, values=None):
+    """assembly of non-linear panels joined by penalty connections: the real PanelAssembly.calc_kT / calc_fint / calc_k0 at a symbolic
+    state; tangent = Jacobian of the internal force by the exact five-point stencil (the internal force is cubic in the amplitudes),
+    symmetric; internal force of the undeformed assembly zero; tangent at the undeformed state = linear stiffness"""
+    from . import c12
+    ctx = PanelCtx(values=values, seed=cfg.get('seed', 0))
+    obs = []
+    with ctx.shadow(extra_stubs=c12.conn_stubs(ctx)):
+        from compmech.panel.assembly import PanelAssembly
+        panels = []
+        for q, (model, m, n) in enumerate(cfg['panels']):
+            p = ctx.new_panel(model, m, n, prefix='p%d_' % q)
+            lam = p._verif_lam
+            lam.A, lam.D = lam.ABD[0:3, 0:3], lam.ABD[3:6, 3:6]
+            p.lam = lam
+            p._rebuild()
+            if panels:
+                p.a = panels[0].a
+            p.nx = p.ny = 1
+            panels.append(p)
+        conn = [dict(p1=panels[k], p2=panels[k + 1], func='SSycte', ycte1=panels[k].b, ycte2=0) for k in range(len(panels) - 1)]
+        asm = PanelAssembly(panels, conn)
+        size = asm.get_size()
+        for p in panels:
+            p.calc_k0(silent=True)
+        c = np.array([ctx.V('c%d' % k) for k in range(size)], dtype=object)
+        d = np.array([ctx.V('d%d' % k) for k in range(size)], dtype=object)
+        c0 = c.copy()
+        kT = asm.calc_kT(c, silent=True)
+        fs = {}
+        for t in (-2, -1, 1, 2):
+            ct = np.array([c0[k] + t * d[k] for k in range(size)], dtype=object)
+            fs[t] = asm.calc_fint(ct, silent=True)
+        lhs = kT.dot(d)
+        for k in range(size):
+            obs.append(('assembly-stencil[%d]' % k, 12 * lhs[k], -fs[2][k] + 8 * fs[1][k] - 8 * fs[-1][k] + fs[-2][k]))
+        kd = kT.todict()
+        for (r, cc), v in kd.items():
+            if r < cc:
+                obs.append(('assembly-kT-symmetric[%d,%d]' % (r, cc), v, kd.get((cc, r), 0)))
+        z = np.array([Sym.lift(0)] * size, dtype=object)
+        f0 = asm.calc_fint(z, silent=True)
+        for k in range(size):
+            obs.append(('assembly-fint-of-undeformed-state[%d]' % k, f0[k], 0))
+        kT0 = asm.calc_kT(z, silent=True).todict()
+        # (the linear stiffness by the SAME numerical rule: agreement of the numerical and the analytical k0 needs an exact rule, C14 d)
+        k0m = asm.calc_k0(c=z, silent=True)
+        k0 = k0m.todict()
+        for k in sorted(set(kT0) | set(k0)):
+            obs.append(('assembly-kT-at-undeformed-state-vs-k0[%d,%d]' % k, kT0.get(k, 0), k0.get(k, 0)))
+        # infinitesimal states: the part of fint that is linear in the amplitudes is k0 c  (fint is a cubic polynomial in c:
+        # its linear part is (8 (f(c) - f(-c)) - (f(2c) - f(-2c))) / 12)
+        fl = {t: asm.calc_fint(np.array([t * c0[k] for k in range(size)], dtype=object), silent=True) for t in (-2, -1, 1, 2)}
+        kc = k0m.dot(c0)
+        for k in range(size):
+            obs.append(('assembly-fint-linear-part-vs-k0c[%d]' % k, 8 * (fl[1][k] - fl[-1][k]) - (fl[2][k] - fl[-2][k]), 12 * kc[k]))
+        for k in range(size):
+            if c[k] is not c0[k]:
+                obs.append(('caller-array-c[%d]-unchanged' % k, Sym.lift(1), Sym.lift(0)))
+    assumptions = []
+    if values is None:
+        for q, p in enumerate(panels):
+            assumptions += positivity(ctx, p, cfg['panels'][q][0])
+    info = {'atoms': len(ctx.atoms.table), 'stats': {k: v.stats.as_dict() for k, v in ctx.kernels.mods.items()},
+            'values': {k: str(v) for k, v in ctx.used_values.items()}}
+    return obs, assumptions, info
+
+
 def build(cfg, values=None):
+    if cfg['variant'] == 'assembly':
+        return build_assembly(cfg, values)
     model, m, n, variant = cfg['model'], cfg['m'], cfg['n'], cfg['variant']
     nx, ny = cfg['nx'], cfg['ny']
     ctx = PanelCtx(values=values, seed=cfg.get('seed', 0))
@@ -180,9 +250,14 @@ def configs(tier, seed):
             out.append({'model': model, 'm': 4, 'n': 4, 'nx': 1, 'ny': 1, 'variant': 'fint', 'group': 'fint-gradient:%s' % model, 'timeout_ms': 600000})
             out.append({'model': model, 'm': 4, 'n': 3, 'nx': 2, 'ny': 2, 'variant': 'kT', 'group': 'kT-jacobian-2x2:%s' % model, 'timeout_ms': 900000})
             out.append({'model': model, 'm': 6, 'n': 1, 'nx': 3, 'ny': 1, 'variant': 'fint', 'state': 'bending', 'group': 'fint-gradient-3x1:%s' % model, 'timeout_ms': 600000})
+    # assemblies of non-linear panels joined by penalty connections
+    out.append({'variant': 'assembly', 'panels': [('plate', 2, 1), ('plate', 1, 2)], 'model': 'assembly', 'm': 2, 'n': 1, 'nx': 1, 'ny': 1,
+                'group': 'assembly-tangent=jacobian', 'timeout_ms': 300000})
+    out.append({'variant': 'assembly', 'panels': [('cpanel', 1, 2), ('plate', 1, 1), ('plate', 2, 1)], 'model': 'assembly', 'm': 1, 'n': 2, 'nx': 1, 'ny': 1,
+                'group': 'assembly-tangent=jacobian', 'timeout_ms': 300000})
     out[0]['canary'] = True
     out[1]['canary'] = True
-    out[-1]['canary'] = True
+    out[-3]['canary'] = True
     return out
 
 
@@ -197,13 +272,14 @@ def main():
         for fn in ('calc_fint', 'fkL_num', 'fkG_num'):
             run.encoded(rel, fn)
     run.encoded('compmech/panel/_panel.py', 'Panel.calc_fint, Panel.calc_kT, Panel.calc_k0, Panel.calc_kG0')
+    run.encoded('compmech/panel/assembly/assembly.py', 'PanelAssembly.calc_kT, calc_fint, calc_k0, get_k0_conn')
     cf = configs(run.tier, run.seed)
     run.bounds = {'series_orders_(m,n)': sorted({(c['m'], c['n']) for c in cf}), 'quadrature_points': sorted({(c['nx'], c['ny']) for c in cf}),
                   'states': ['generic', 'membrane (w=0)', 'bending (u=v=0)', 'zero'], 'configurations': len(cf)}
     run.assume('a, b, r > 0', 'function tables = Bardell polynomials (C10)', 'ABD block-symmetric',
                'Gauss order integrating the quartic exactly is a C10 table fact; identities here hold per point and weight')
     run.stubs = ['leggauss_quad -> symbolic points/weights', 'laminate.read_stack -> symbolic ABD']
-    run.outside = ['assemblies with penalty connections (decided under C12/C13 once claimed)', 'orders above the bound', 'floating point']
+    run.outside = ['orders above the bound', 'assemblies of more than three panels', 'floating point']
     res = pmap(kprop.job, [(__name__, c) for c in cf])
     res = kprop.explore_loci(__name__, res, run)      # second pass: the equality loci the executed code branched on
     kprop.handle(run, res, build, 'entries violate the gradient/Jacobian identity')
